@@ -32,13 +32,13 @@ def run(ctx):
         sess = [laws.rand_dgm(rng, rng.randint(1, 5), 6, diag=0.15) for _ in range(3)]
         sess.append(rng.sample(sess[0], len(sess[0])))
         if i % 3 == 0:   # nearly identical diagrams at large filtration values: a copy moved far along the diagonal and its 1-tick perturbation
-            T = rng.choice([10 ** 4, 10 ** 5, 10 ** 6])
+            T = rng.choice([10 ** 5, 10 ** 6, 10 ** 7])
             far = [[b + T, d + T] for b, d in sess[0]]
             near = [list(p) for p in far]
             near[rng.randrange(len(near))][1] += 1
             sess += [far, near]
         n = max(len(d) for d in sess)
-        specs.append(dict(session=sess, fn="heat", emb=(embs[i % len(embs)] if i % 3 else EXACT_EMBS[(i // 3) % 2]), sigma_t=sig_anchor, anchor=1, aux=[], zerotol=Fraction(n, 10 ** 6) / Fraction(math.sqrt(8 * math.pi * sig_anchor))))
+        specs.append(dict(session=sess, fn="heat", emb=(embs[i % len(embs)] if i % 3 else [DEC_EMBS[0], EXACT_EMBS[0], DEC_EMBS[0], DEC_EMBS[2]][(i // 3) % 4]), sigma_t=sig_anchor, anchor=1, aux=[], zerotol=Fraction(n, 10 ** 6) / Fraction(math.sqrt(8 * math.pi * sig_anchor))))
     for i in range(14 if quick else 120):
         sigma_t = rng.choice([0.05, 0.4, 1.0, 2.5, 5.0])
         sess = laws.make_session(rng, 3, 14 if quick else 40, rng.choice([6, 12, 30]), neg=(i % 4 == 3), with_empty=(i % 2 == 0))
